@@ -1,4 +1,14 @@
-"""C07 -- regularization matrices: entrywise definitions of every scheme kernel (symmetric, size = parameter count)."""
+"""C07 -- regularization matrices are symmetric positive (semi-)definite with the stated quadratic form.
+
+Part 1 (contracts, engine A on the real kernels): entrywise definitions of every scheme kernel of regularization_util and of the
+Gaussian / exponential covariance kernels (size = parameter count, symmetry), the per-pixel weights, reg_split_from.
+Part 2 (corollaries over those contracts, proved by chains of inductive lemmas on partial sums): the quadratic-form identities
+  x^T H x = 1e-8 |x|^2 + c^2 * sum over neighbouring pairs (x_i - x_j)^2                      (constant scheme, symmetric table),
+  x^T H x = 1e-8 |x|^2 + sum over pairs (w_i^2 + w_j^2) (x_i - x_j)^2                          (adaptive-brightness scheme, every table),
+  H = 1e-8 I + sum_k w_{k//4}^2 L_k L_k^T,  x^T H x = 1e-8 |x|^2 + sum_k w^2 (L_k . x)^2      (split-cross schemes, distinct rows),
+each with x^T H x >= 1e-8 |x|^2 > 0 for x != 0 (strict positive definiteness).
+Not proved here (bounded checks only): definiteness of the inverses of the kernel covariances (np.linalg.inv, Bochner-type argument).
+"""
 import numpy as np
 from pyvc.contract import contract, macro, corollary, spec_fn, CONTRACTS
 import pyvc.calls  # noqa: F401  (loads pyvc/ext/*)
